@@ -105,6 +105,7 @@ class _Fn:
                 self.owner[p] = r
         # locals bound to fresh models: X = inertial_sensor.EstimationModel() keeps role of X
         self.slices = {}        # local name -> (lo Rat, hi Rat|None, stmt)
+        self.neg_zero = []      # slice bounds `-<model size>`
         self.local_role = {}    # derived locals -> role (Hg, Fig, gyro_average, ...)
         self._scan()
 
@@ -155,6 +156,13 @@ class _Fn:
                     open_end = isinstance(a[1], ast.Constant) and a[1].value is None
                     hi = None if open_end else self.lin(a[1], st)
                 self.slices[st.targets[0].id] = (lo, hi, open_end, st)
+                # a bound counted from the end by a model size: -0 is 0, so for a model without
+                # states (the documented default of the filters) the slice is the whole vector
+                for b_ in a:
+                    if isinstance(b_, ast.UnaryOp) and isinstance(b_.op, ast.USub):
+                        inner = self.lin(b_.operand, st)
+                        if inner is not None and not self.A.is_const(inner):
+                            self.neg_zero.append((st, b_))
         self.clo_b = Closure(f, stop=set(self.slices))
 
 
@@ -187,6 +195,13 @@ def layout_state(ctx):
         F = _Fn(ctx, fq)
         blocks = _canon_blocks(F)
         res[fq] = {}
+        for st_, b_ in F.neg_zero:
+            ctx.ob('LAYOUT-STATE', False, None, 'no block is addressed from the end by a model size',
+                   f=F.f, node=st_, key='neg-zero-' + norm_text(st_)[:40],
+                   why='`%s` counts the block from the end by `%s`: for a model without states '
+                       '(the documented default of the filters) that is -0 = 0 and the slice '
+                       'selects the WHOLE state vector instead of nothing' % (
+                           norm_text(st_)[:70], norm_text(b_.operand)))
         for name, (lo, hi, open_end, st) in F.slices.items():
             if lo is not None and any('n_noises' in a or 'n_output_noises' in a
                                       for a in F.A.atoms_of(lo)) or \
